@@ -553,6 +553,11 @@ func (x *execution) after(r *req) {
 			first = false
 		}
 		x.appends = append(x.appends, appendRec{desc: r.desc, h: r.h, input: x.curInput, first: first})
+		if strings.HasPrefix(r.desc, "start(h") && r.h != x.dur.last+1 {
+			// tendermint/process.go:18 hands the driver a POINTER to the machine's height; when the height is
+			// decided inside ProcessStart the record is written with the next height's label
+			x.c.Probe("start_record_mislabelled")
+		}
 	case efBcastProposal:
 		k := voteKey{r.kind, r.h, r.r}
 		x.sentProps[k] = r
@@ -630,20 +635,29 @@ func (x *execution) checkDurableCause(r *req) {
 	sort.Slice(hs, func(i, j int) bool { return hs[i] < hs[j] })
 	for _, h := range hs {
 		if strings.Join(got.Ents[h], "|") != strings.Join(want[h], "|") {
-			c.Fail("visible_before_durable", x.where()+"/"+efName[r.kind], "%s is about to become visible, but a crash now (synced data only) would not hold the inputs that caused it\nheight %d in the image: %v\nappended so far:   %v",
-				r.desc, h, got.Ents[h], want[h])
+			c.Fail("visible_before_durable", x.where()+"/"+efName[r.kind], "%s is about to become visible, but a crash now (synced data only) would not hold the inputs that caused it\nheight %d in the image: %v\nappended so far:   %v%s",
+				r.desc, h, got.Ents[h], want[h], "\neffects: "+strings.Join(tail(x.effectsLog, 16), " ; "))
 		}
 	}
 	if r.kind != efCommit {
-		start := fmt.Sprintf("start(h%d)", r.h)
+		// The start of the height is a cause of everything the node sends in it. Recovery starts a height when
+		// replay meets a start record that it does not skip, i.e. one labelled with the current height or above
+		// (ProcessWAL ignores the label itself); so that is what must be durable - not a particular label.
+		// (juno labels the record h+1 when the whole height h is decided inside ProcessStart, see the
+		// start_record_mislabelled probe.)
 		found := false
-		for _, e := range got.Ents[r.h] {
-			if e == start {
-				found = true
+		for h, l := range got.Ents {
+			if h < r.h {
+				continue
+			}
+			for _, e := range l {
+				if strings.HasPrefix(e, "start(h") {
+					found = true
+				}
 			}
 		}
 		if !found {
-			c.Fail("visible_before_durable", x.where()+"/"+efName[r.kind]+"/no_start_record", "%s is about to become visible but the synced-only image has no %s", r.desc, start)
+			c.Fail("visible_before_durable", x.where()+"/"+efName[r.kind]+"/no_start_record", "%s is about to become visible but the synced-only image has no start record that replay would process at height %d\nimage: %s\neffects: %s", r.desc, r.h, got.Canon(), strings.Join(tail(x.effectsLog, 16), " ; "))
 		}
 	}
 }
